@@ -160,13 +160,15 @@ def ltsAct (s : String) : Option Martian.LockLTS.Act :=
   | 'U' :: r => (String.ofList r).toNat?.map .unlock
   | 'S' :: r => (String.ofList r).toNat?.map .signal
   | 'K' :: r => (String.ofList r).toNat?.map .kill
+  | 'E' :: r => (String.ofList r).toNat?.map .acquireErr
+  | 'T' :: r => (String.ofList r).toNat?.map .start
   | _ => none
 
 def ltsTrace (rf : Bool) : Martian.LockLTS.St → List Martian.LockLTS.Act → List String → Option (List String)
   | s, [], acc => some (acc.reverse ++ [boolStr s.lockFile, toString s.holders.length, toString s.registered.length])
   | s, a :: r, acc =>
     if Martian.LockLTS.enabled s a then
-      let (s', ok) := Martian.LockLTS.step rf s a
+      let (s', ok) := Martian.LockLTS.step rf Gen.c15RefusedStartRemovesDir s a
       ltsTrace rf s' r ((if ok then "1" else "0") :: acc)
     else none
 
